@@ -149,6 +149,12 @@ func (c *Config) Get(format string) (info *Info, err error) {
 		// no overrides
 		return info, nil
 	}
+	// the merge above copied the key id pointers, not the strings they point
+	// to: copy those as well, otherwise merging the overrides would write
+	// through the pointers into c.Info
+	info.Deb.Signature.KeyID = copyString(info.Deb.Signature.KeyID)
+	info.RPM.Signature.KeyID = copyString(info.RPM.Signature.KeyID)
+	info.APK.Signature.KeyID = copyString(info.APK.Signature.KeyID)
 	if err = mergo.Merge(&info.Overridables, override, mergo.WithOverride); err != nil {
 		return nil, fmt.Errorf("failed to merge overrides into info: %w", err)
 	}
@@ -161,6 +167,14 @@ func (c *Config) Get(format string) (info *Info, err error) {
 	}
 	info.Contents = contents
 	return info, nil
+}
+
+func copyString(s *string) *string {
+	if s == nil {
+		return nil
+	}
+	v := *s
+	return &v
 }
 
 // Validate ensures that the config is well typed.
